@@ -520,6 +520,36 @@ func c15TrustedIPs(c *Ctx, up *world.Upstream) {
 					probe(int(ip[2])<<8 | int(ip[3]))
 				}
 			}
+			// a header that is present but names no address: the client address is unknown, so it lies in
+			// no network — whatever the address of the peer (here a peer INSIDE the first network, which is
+			// what a front proxy on the trusted side looks like)
+			if len(nets) > 0 {
+				inside := append(net.IP{}, nets[0].IP...)
+				peer := net.JoinHostPort(inside.String(), "40000")
+				reqH.RemoteAddr = peer
+				for _, bad := range []string{"unknown", "_hidden", "-", ", 203.0.113.7", " , 10.1.2.3", "unknown, 10.1.2.3", "10.1.2.3.4", "[10.1.2.3]", "10.1.2.300", "fd00::zz", "::ffff:10.1.2", "localhost"} {
+					c.Inc("evaluations")
+					c.Inc("address_checks_header_unparseable")
+					reqH.Header.Set(hdrName, bad)
+					var got bool
+					var pan any
+					func() {
+						defer func() {
+							if r := recover(); r != nil {
+								pan = r
+							}
+						}()
+						got = verifIsTrustedIP(pxH.P, reqH)
+					}()
+					cs := c15IPCase{Nets: set, Remote: fmt.Sprintf("%s: %q (peer %s)", hdrName, bad, peer), Expected: false, Observed: fmt.Sprintf("trusted=%v panic=%v", got, pan)}
+					if pan != nil {
+						c.Violate("C15/trusted-ip-panic", fmt.Sprintf("trusted-ip %v: %s: %q panics: %v", set, hdrName, bad, pan), len(bad), cs)
+					} else if got {
+						c.Violate("C15/trusted-ip-decision-header-unparseable", fmt.Sprintf("trusted-ip %v, reverse-proxy mode: %s: %q names no address, yet the request is exempt (the peer %s lies inside %s)", set, hdrName, bad, peer, nets[0]), len(bad), cs)
+					}
+				}
+				reqH.RemoteAddr = "198.51.100.77:40000"
+			}
 			for x := 0; x < 65536; x += hstep {
 				ip := net.ParseIP(fmt.Sprintf("fd00::%x", x))
 				checkH(fmt.Sprintf("fd00::%x", x), ip)
